@@ -378,6 +378,15 @@ def clause_e(ctx, P):
                 l_ok = is_lowercased(e[2][0])
                 # the captured key: lower-cased in the parent
                 ok = l_ok
+    if not ok:
+        # the same comparison written out in the function itself (an explicit loop instead of find(|p| ..))
+        gtr = tracer(P, get)
+        for b, t in get.calls():
+            if method(cname(t)) in ("eq", "ne") and len(t["args"]) == 2:
+                sides = [gtr.operand(a, endpos(get, b)) for a in t["args"]]
+                if any(is_lowercased(sd) and any(x[0] == "field" and x[2] == "key" for x in walk(sd)) for sd in sides):
+                    ok = True
+                    det = "; ".join(show(sd)[:60] for sd in sides)
     trg = tracer(P, get)
     lowered_param = any(method(cname(t)) == "to_lowercase" and any(x[0] == "param" and x[1] == 2 for x in walk(arg_expr(trg, get, b, t, 0))) for b, t in get.calls())
     ctx.ob("C16e.lookup-case-insensitive", "TxtProperties::get", ok and lowered_param, get.loc(),
